@@ -43,8 +43,8 @@ COMPONENTS = {"real": ["wormhole client", "spake2 0.9 (always)", "PyNaCl",
               "stub": ["Autobahn", "TCP/DNS"]}
 
 OPS = ("flip", "truncate", "extend", "phase_swap", "phase_set", "side_to_peer",
-       "side_to_own", "cross_phase", "inject_body", "inject_pake", "reflect",
-       "drop")
+       "side_to_own", "side_to_third", "cross_phase", "inject_body",
+       "inject_pake", "reflect", "drop")
 
 
 def configs(tier):
@@ -55,6 +55,7 @@ SWEEP_OPS = (
     [("flip", x) for x in ("first", "mid", "last")] +
     [("truncate", x) for x in ("empty", "half", "minus1")] +
     [("extend", 1), ("drop",), ("dup",), ("side_to_peer",), ("side_to_own",)] +
+    [("side_to_third", v) for v in range(5)] +
     [("phase_set", p) for p in ("0", "1", "2", "version", "pake", "9")] +
     [("cross_phase", j) for j in range(4)] +
     [("reflect", j) for j in range(4)] +
@@ -187,6 +188,13 @@ def run_sweep_case(seed, tape, opts):
             if d["side"] == other_side(target):
                 forbidden.add(d["phase"])
             d["side"] = target.side
+        elif kind == "side_to_third":
+            # a genuine peer message under a side label that is neither
+            # party's (or only looks like the peer's)
+            if d["side"] != other_side(target):
+                return m
+            forbidden.add(d["phase"])
+            d["side"] = side_variant(other_side(target), op[1])
         elif kind == "phase_set":
             if d["phase"] == op[1]:
                 return m
@@ -417,6 +425,8 @@ def run_one(seed, tape, opts):
             m["side"] = other_side(c)
         elif op == "side_to_own":
             m["side"] = c.side
+        elif op == "side_to_third":
+            m["side"] = side_variant(m["side"], tape.choose(5, "t_sv"))
         elif op == "cross_phase":
             # an earlier body of the same sender replayed under this phase
             src = tape.pick(srcs, "t_src")
